@@ -535,6 +535,14 @@ type StreamText struct {
 
 func (s StreamText) wellFormed() bool { return len(s.Lines) > 0 }
 
+func (s StreamText) longestLine() int {
+	n := 0
+	for _, l := range s.Lines {
+		n = max(n, len(l))
+	}
+	return n
+}
+
 func (s StreamText) Render(crlf bool) []byte {
 	if !s.wellFormed() {
 		return s.Raw
